@@ -1,7 +1,7 @@
 ------------------------------- MODULE ExecAbs -------------------------------
 (* Property automaton of C14 over observable events of a main_thread_only worker.
    Events [ev, side, op, chan, tok, res, thread, flag]:
-     call remote_exec (tok = programmed outcome: 1 ret, 2 raise, 3 SystemExit, 4 blocks until the next submission is answered)
+     call remote_exec (tok = programmed outcome: 1 ret, 2 raise, 3 SystemExit, 4 blocks until the next submission is answered, 5 KeyboardInterrupt raised in the body)
      ret  remote_exec (chan)
      body_start (chan, flag = runs on the worker's main thread), body_end (chan)
      ret waitclose (chan, res = ok | RemoteError:deadlock | RemoteError:boom | RemoteError | ...)
@@ -40,7 +40,7 @@ Step(st, e) ==
             ELSE s2
          ELSE IF x \in {1, 4} /\ e.res # "ok" THEN Flag(s1, "C14.body-disturbed-or-wrong-result")
          ELSE IF x = 2 /\ e.res # "RemoteError:boom" THEN Flag(s1, "C14.body-disturbed-or-wrong-result")
-         ELSE IF x = 3 /\ e.res \notin {"RemoteError", "RemoteError:boom"} THEN Flag(s1, "C14.body-disturbed-or-wrong-result")
+         ELSE IF x \in {3, 5} /\ e.res \notin {"RemoteError", "RemoteError:boom"} THEN Flag(s1, "C14.body-disturbed-or-wrong-result")
          ELSE IF e.chan \notin st.startedCh THEN Flag(s1, "C14.answered-without-running")
          ELSE s1
     [] e.ev = "stuck" -> Flag(st, "C14.blocked-forever")
